@@ -337,17 +337,23 @@ inductive Outcome (Val Err : Type) where
   | fuel
   deriving Repr, DecidableEq
 
+/-- `_invalidate_obj` of node `nd` is registered on `q`: q ∈ _fn_params ∩ _root._fn_params -/
+def hitObj (w : World Val Err Op) (q : PId) (nd : Node Val Err Op) : Bool :=
+  nd.fnParams.contains q && (match w.nodes[nd.root]? with | some rt => rt.fnParams.contains q | none => false)
+
+/-- the roots whose `_dirty_obj` some node's `_invalidate_obj` sets -/
+def rootsHit (w : World Val Err Op) (q : PId) : List NId :=
+  (w.nodes.filter (hitObj w q)).map (·.root)
+
+def invNode (w : World Val Err Op) (q : PId) (nd : Node Val Err Op) (i : NId) : Node Val Err Op :=
+  let nd := if hitObj w q nd then { nd with error := none } else nd                        -- _invalidate_obj
+  let nd := if nd.iparams.contains q then { nd with dirty := true, error := none } else nd  -- _invalidate_current
+  if (rootsHit w q).contains i then { nd with dirtyObj := true } else nd                    -- `self._root._dirty_obj = True`
+
 /-- src: rx._invalidate_current / rx._invalidate_obj installed by rx._setup_invalidations:
 what the precedence −1 watchers of all nodes do when parameter `q` changes -/
 def invalidate (w : World Val Err Op) (q : PId) : World Val Err Op :=
-  -- _invalidate_obj: for q in _fn_params ∩ _root._fn_params
-  let hitObj (nd : Node Val Err Op) : Bool :=
-    nd.fnParams.contains q && (match w.nodes[nd.root]? with | some rt => rt.fnParams.contains q | none => false)
-  let rootsHit : List NId := (w.nodes.filter hitObj).map (·.root)
-  { w with nodes := w.nodes.zipIdx.map fun (nd, i) =>
-      let nd := if hitObj nd then { nd with error := none } else nd
-      let nd := if nd.iparams.contains q then { nd with dirty := true, error := none } else nd
-      if rootsHit.contains i then { nd with dirtyObj := true } else nd }
+  { w with nodes := w.nodes.zipIdx.map fun (nd, i) => invNode w q nd i }
 
 /-- the precedence-0 watchers of parameter `q`, one entry per registration -/
 def consumersOf (w : World Val Err Op) (q : PId) : List (Consumer Val) :=
